@@ -82,6 +82,17 @@ def main():
     out.append("")
     out.append("%d of %d seeded changes are caught by the quick tier of the check of their own property.\n" % (caught, tot))
 
+    tp = os.path.join(ROOT, "thorough_summary.txt")
+    if os.path.exists(tp):
+        out.append("### 10.4b Thorough tier on the unchanged tree (wall-capped per property; from thorough_summary.txt)\n")
+        out.append("| property | exit | runs | evaluations | distinct | wall s | unlisted violations |")
+        out.append("|---|---|---|---|---|---|---|")
+        import re
+        for l in open(tp):
+            m = re.match(r"(C\d+) rc=(\d+) seconds=(\d+) check \S+ thorough: runs=(\d+) evaluations=(\d+) nontrivial_runs=(\d+) distinct=(\d+) wall=([\d.]+)s.*? (\d+) violations", l)
+            if m:
+                out.append("| %s | %s | %s | %s | %s | %s | %s |" % (m.group(1), m.group(2), m.group(4), m.group(5), m.group(7), m.group(8), m.group(9)))
+        out.append("")
     gen = "\n".join(out)
     p = os.path.join(ROOT, "DESIGN.md")
     s = open(p).read()
